@@ -115,6 +115,11 @@ func genC15(t *rapid.T) *Case {
 	title, _ := g.c15Title(hasTitleElem)
 	g.pop()
 	var head, body strings.Builder
+	if hasTitleElem && mode == "origin" && g.intn(0, 11, "titleinbody") == 0 {
+		// something in the head that is no head content ends the head early: the parser puts the
+		// <title> that follows into the body
+		head.WriteString(`<img src="/pixel.gif" width="1" height="1">`)
+	}
 	if hasTitleElem {
 		head.WriteString("<title>" + g.pick("tpad", "", " ", "\n  ") + html.EscapeString(title) + g.pick("tpad2", "", " ", "\n") + "</title>")
 	}
